@@ -234,7 +234,7 @@ DSA_FAULTS = ["valid-4", "valid-5", "p-composite", "q-composite", "q-not-dividin
               "y=0", "y=p", "y>=p", "q=0", "p=0"]
 ELG_FAULTS = ["valid-3", "valid-4", "p-composite", "g=1", "g=p", "y!=g^x", "x=0", "x=p", "y=0", "y=p"]
 ECC_FAULTS = ["valid-d", "valid-xy", "valid-dxy", "valid-seed", "off-curve-y+1", "off-curve-y-1", "x>=p", "y>=p", "infinity", "twist", "d=0", "d=n", "d=n+1",
-              "d-mismatch", "seed-short", "seed-long", "mont-low-order", "mont-low-order-alias", "ed-not-on-curve", "x-only-for-ws", "d-and-seed"]
+              "d-mismatch", "d-mismatch-special", "d-mismatch-special", "seed-short", "seed-long", "mont-low-order", "mont-low-order-alias", "ed-not-on-curve", "x-only-for-ws", "d-and-seed"]
 
 
 @st.composite
@@ -381,6 +381,17 @@ def run_construct(case, rec):
             elif fault == "d-mismatch":
                 kw.update(d=d % (n - 1) + 1 if d + 1 < n else d - 1, point_x=Q[0], point_y=Q[1])
                 kw["d"] = d + 1 if d + 1 < n else d - 1
+            elif fault == "d-mismatch-special":
+                # a private scalar together with a *foreign* point that is on the curve and has a special shape: x = 0 (where b is a square),
+                # the generator, its negative, -Q
+                cands = [(C["Gx"], C["Gy"]), (C["Gx"], p - C["Gy"]), (Q[0], p - Q[1])]
+                P0 = ec.ws_decompress(C, 0, 0)
+                if P0 is not None:
+                    cands += [P0, P0, (P0[0], p - P0[1])]
+                P_ = cands[case["pos"] % len(cands)]
+                if tuple(P_) == tuple(Q):
+                    raise Skip()
+                kw.update(d=d, point_x=P_[0], point_y=P_[1])
             elif fault == "x-only-for-ws":
                 kw.update(point_x=Q[0])
             elif fault == "d-and-seed":
@@ -416,6 +427,18 @@ def run_construct(case, rec):
                     if (A[0] + p).bit_length() > 8 * ln:
                         raise Skip()
                     kw.update(point_x=A[0] + p, point_y=A[1])
+                elif fault == "d-mismatch-special":
+                    # the seed together with a foreign point of small order (zero coordinates), the base point or -A
+                    cands = [(0, 1), (0, p - 1), (C["Gx"], C["Gy"]), ((p - A[0]) % p, A[1])]
+                    if curve == "ed448":
+                        cands += [(1, 0), (p - 1, 0)]
+                    else:
+                        i_ = pow(2, (p - 1) // 4, p)         # sqrt(-1) mod 2^255-19
+                        cands += [(i_, 0), (p - i_, 0)]
+                    P_ = cands[case["pos"] % len(cands)]
+                    if not ec.ed_on_curve(C, P_) or tuple(P_) == tuple(A):
+                        raise Skip()
+                    kw.update(seed=seed, point_x=P_[0], point_y=P_[1])
                 elif fault == "d-mismatch":
                     A2 = ec.ed_decode(C, ec.eddsa_pubkey(keys.REFNAME[curve], seed[::-1]))
                     kw.update(seed=seed, point_x=A2[0], point_y=A2[1])
